@@ -222,6 +222,8 @@ func mutateGrammar(r *rng, src []byte) []byte {
 			s = s[:r.intn(len(s)+1)]
 		case 7: // append a throw/recover rule and reference shapes the optimizer sees
 			s += r.pick([]string{"\nXx <- 'x' %{e} //{e} 'y'\n", "\nXx <- Yy 'x'\n", "\nXx <- Xx 'x' / 'y'\n", "\nXx <- &Xx 'x'\n", "\nXx <- ('a' / 'b' / [c-d] / 'e'i)* !.\n", "\nXx <- l:'a' l:'b' { return nil, nil }\n", "\nXx <- l:&'a' m:!'b' n:&{ return true, nil } 'c' { return nil, nil }\n", "\nXx <- 'a' / \n", "\nXx <- !Xx 'a' / &Xx 'b'\n", "\nparser <- 'p' current\ncurrent <- 'c' grammar?\ngrammar <- 'g'\n", "\nXx <- \"" + strings.Repeat("long literal ", 400) + "\"\n", "\nXx <- ()\n", "\nXx <- ( )* \n", "\nXx <- 'a'** 'b'?? 'c'+*\n", "\nXx \"\" <- 'a'\n", "\nXx <- [^]* [ ]i . \n",
+				// a literal that never ends, right after a rule reference, then a blank line or the end
+				"\nXx <- Yy \"abc\n\nYy <- 'y'\n", "\nXx <- Yy 'abc\n\n", "\nXx <- Yy \"abc", "\nXx <- Yy `abc\n\nYy <- 'y'\n", "\nXx <- Yy \"a\\\"\n\n",
 				// left recursion whose recursive reference sits under a recovery expression or a label
 				"\nXx <- Xx 'x' //{e} 'y' / 'z'\n", "\nXx <- ( Xx 'x' / 'y' ) //{e} 'r'\n", "\nXx <- v:Xx 'x' / 'y'\n", "\nXx <- ( ( Xx ) )? 'x'\n", "\nXx <- &'a' Xx 'x' / 'y'\n"})
 		case 8: // replace a literal quote style
@@ -371,11 +373,17 @@ func genFreeRefGrammar(r *rng) toolInput {
 //	refs_all_visited=true: a nullable base under sequences, or a choice between
 //	    references; the analysis looks at every reference
 func genDeepGrammar(r *rng) toolInput {
-	if r.chance(1, 6) {
+	if r.chance(1, 4) {
 		// deeply nested parentheses: the grammar front-end is itself a backtracking
 		// parser and needs 2^depth steps for them unless -cache is given
 		d := 24 + r.intn(24)
-		g := "A <- " + strings.Repeat("( ", d) + "'a'" + strings.Repeat(" )", d) + "\n"
+		closing := d
+		if r.chance(1, 2) {
+			// groups that are opened and never closed: the failure is found at the
+			// innermost level and every level above gets to try again
+			closing = r.intn(3)
+		}
+		g := "A <- " + strings.Repeat("( ", d) + "'a'" + strings.Repeat(" )", closing) + "\n"
 		return toolInput{Name: "gennest", Class: "gendeep", Grammar: []byte(g), Rules: []string{"A", "A"},
 			Attrs: map[string]string{"shape": "nested-parentheses", "depth": fmt.Sprint(d)}}
 	}
